@@ -596,7 +596,20 @@ static void overload_function (program_t * prog, function_index_t index,
    * later.
    */
   alias = add_new_function_entry ();
-  FUNCTION_FLAGS (alias) = NAME_INHERITED | NAME_ALIAS;
+  {
+    /* The slot carries the modifiers of the inherited function, as copy_function()
+     * does for a first definition: a call that arrives through this slot (call_other
+     * on an object further down the inherit tree) is checked against them. epilog()
+     * overwrites them only for the cases it fixes up. */
+    int af = newflags & NAME_TYPE_MOD;
+
+    if (af & NAME_PRIVATE)
+      af |= NAME_HIDDEN;
+    af |= typemod;
+    if (af & NAME_PUBLIC)
+      af &= ~NAME_PRIVATE;
+    FUNCTION_FLAGS (alias) = (function_flags_t) (NAME_INHERITED | NAME_ALIAS | af);
+  }
   FUNCTION_RENTRY (alias)->inh.offset = (unsigned short)(NUM_INHERITS - 1);
   FUNCTION_RENTRY (alias)->inh.index = index;
   FUNCTION_ALIAS (alias) = oldindex;
